@@ -2,6 +2,7 @@
 #
 # SPDX-License-Identifier: Apache-2.0
 
+import asyncio
 import sys
 from typing import Any
 
@@ -98,11 +99,13 @@ class CANXCPSerivce(XCPService):
         assert isinstance(self.transport, RawCANTransport)
 
         await self.transport.sendto(data, self.slave_id, t)
-        while True:
-            dst_, resp = await self.transport.recvfrom(t)
+        # One deadline for the answer: frames of other nodes must not restart the timeout.
+        async with asyncio.timeout(t):
+            while True:
+                dst_, resp = await self.transport.recvfrom(t)
 
-            if dst_ == self.master_id:
-                break
+                if dst_ == self.master_id:
+                    break
 
         header = types.Response.parse(resp)
         logger.info(header)
